@@ -271,7 +271,60 @@ func (c *FnCtx) sliceConcat(st *State, a, b *Term) *Term {
 
 func (c *FnCtx) callFuncValue(st *State, call *ast.CallExpr, fv *Term, name string) []*Term {
 	if strings.HasPrefix(fv.Op, "closure#") {
-		c.unsupportedf(call, "direct call of local closure %s", name)
+		// a local function literal called directly: its body is executed at the call site (loop-free literals only)
+		cl := c.closures[fv.Op]
+		if cl == nil || cl.Lit == nil || len(c.inlineStack) >= 3 {
+			c.unsupportedf(call, "direct call of local closure %s", name)
+		}
+		simple := true
+		ast.Inspect(cl.Lit.Body, func(n ast.Node) bool {
+			switch n.(type) {
+			case *ast.ForStmt, *ast.RangeStmt, *ast.FuncLit, *ast.GoStmt, *ast.DeferStmt, *ast.SelectStmt, *ast.LabeledStmt:
+				simple = false
+			}
+			return simple
+		})
+		if !simple {
+			c.unsupportedf(call, "direct call of local closure %s (with loops or nested literals)", name)
+		}
+		var args []*Term
+		lsig := c.typeOf(cl.Lit).(*types.Signature)
+		for i, a := range call.Args {
+			v := c.eval(st, a)
+			if i < lsig.Params().Len() {
+				v = c.convertTo(st, v, c.typeOf(a), lsig.Params().At(i).Type())
+			}
+			args = append(args, v)
+		}
+		c.inlineStack = append(c.inlineStack, fv.Op)
+		outs := c.runClosureBody(st.clone(), cl.Lit, args)
+		c.inlineStack = c.inlineStack[:len(c.inlineStack)-1]
+		var cands []Out
+		for _, o := range outs {
+			if o.flow != FReturn && o.flow != FNormal {
+				c.unsupportedf(call, "closure body leaves with break/continue")
+			}
+			cands = append(cands, Out{st: o.st})
+		}
+		if len(cands) == 0 {
+			st.assume(tFalse)
+			var rs []*Term
+			for i := 0; i < lsig.Results().Len(); i++ {
+				rs = append(rs, c.zero(lsig.Results().At(i).Type()))
+			}
+			return rs
+		}
+		c.keepRet = true
+		merged := c.mergeNormal(cands)
+		c.keepRet = false
+		if len(merged) != 1 || len(merged[0].st.ret) != lsig.Results().Len() {
+			c.unsupportedf(call, "direct call of local closure %s (paths could not be joined)", name)
+		}
+		m := merged[0].st
+		rs := m.ret
+		m.ret = nil
+		*st = *m
+		return rs
 	}
 	if fv.Op == "$yield" {
 		return c.callYield(st, call)
@@ -588,7 +641,27 @@ func (c *FnCtx) pureApp(st *State, key string, sig *types.Signature, recv *Term,
 	}
 	for _, a := range args {
 		if strings.HasPrefix(a.Op, "closure#") {
-			c.unsupportedf(nil, "closure passed to unmodelled function %s", key)
+			// a function literal handed to a library function that has no schema: nothing is known about how often it
+			// runs or what the function returns - the results are unconstrained, whatever the literal writes is havocked
+			cl := c.closures[a.Op]
+			if cl == nil || cl.Lit == nil || c.sweepStrictClosures {
+				c.unsupportedf(nil, "closure passed to unmodelled function %s", key)
+			}
+			log := c.dryRun(st, func(s2 *State) {
+				lsig := c.typeOf(cl.Lit).(*types.Signature)
+				var as []*Term
+				for i := 0; i < lsig.Params().Len(); i++ {
+					as = append(as, c.freshOfType(s2, "dry_arg", lsig.Params().At(i).Type()))
+				}
+				c.runClosureBody(s2, cl.Lit, as)
+			})
+			c.havocWrites(st, log)
+			c.assumptionsUsed["library function without schema called with a function literal: result unconstrained, the literal's writes havocked: "+key] = true
+			var rs []*Term
+			for i := 0; i < sig.Results().Len(); i++ {
+				rs = append(rs, c.freshOfType(st, "res_"+lastDot(key), sig.Results().At(i).Type()))
+			}
+			return rs
 		}
 		all = append(all, a)
 		sorts = append(sorts, a.Sort)
